@@ -352,6 +352,7 @@ func vsRunReply(s vsScenario) (res vsResult) {
 	var peerWrite func(p []byte) error
 	var peerShutWr func() error
 	var peerDrain func()
+	var drained sync.WaitGroup
 	var cleanup []func()
 	defer func() {
 		for _, f := range cleanup {
@@ -396,7 +397,7 @@ func vsRunReply(s vsScenario) (res vsResult) {
 				}
 			}
 		}
-		cleanup = append(cleanup, func() { dc.Close(); tc.Close() })
+		cleanup = append(cleanup, func() { dc.Close(); tc.Close(); drained.Wait() })
 	} else {
 		fds, err := syscall.Socketpair(syscall.AF_UNIX, syscall.SOCK_STREAM, 0)
 		if err != nil {
@@ -437,10 +438,9 @@ func vsRunReply(s vsScenario) (res vsResult) {
 				}
 			}
 		}
-		var drained sync.WaitGroup
+		// the raw descriptor is closed only after the drain goroutine (counted BEFORE it is started) has left it: a late
+		// read on a recycled descriptor number would steal bytes from another scenario
 		cleanup = append(cleanup, func() { c.Close(); syscall.Shutdown(peer, syscall.SHUT_RDWR); drained.Wait(); syscall.Close(peer) })
-		pd := peerDrain
-		peerDrain = func() { drained.Add(1); defer drained.Done(); pd() }
 	}
 	c.AddCloseCallback(func(Connection) error { closed <- struct{}{}; return nil })
 	// our large Write: the peer does not read, so the flush gets parked in the poller
@@ -455,6 +455,17 @@ func vsRunReply(s vsScenario) (res vsResult) {
 	}()
 	parkBy := time.Now().Add(10 * time.Second)
 	for stable, last := 0, -1; stable < 10; {
+		select {
+		case err := <-writeDone:
+			// the kernel took the whole payload although the peer does not read (or the Write failed at once): there is no
+			// parked flush to judge; say so instead of guessing
+			res.ops["setup.not-parked"]++
+			if err != nil {
+				return vsResult{reason: "setup: the large Write failed before the peer did anything: " + err.Error(), ops: res.ops}
+			}
+			return vsResult{ok: true, ops: res.ops}
+		default:
+		}
 		if time.Now().After(parkBy) {
 			return vsResult{reason: "setup: the large Write never got parked", ops: res.ops}
 		}
@@ -478,7 +489,8 @@ func vsRunReply(s vsScenario) (res vsResult) {
 		return vsResult{reason: "setup: shutdown(SHUT_WR): " + err.Error(), ops: res.ops}
 	}
 	if drain {
-		go peerDrain()
+		drained.Add(1)
+		go func() { defer drained.Done(); peerDrain() }()
 	}
 	what := fmt.Sprintf("the peer sent a %d-byte reply and shut its write side down (drain-afterwards=%v) while our %d-byte Write was parked in the poller", replyLen, drain, s.total)
 	// the reader gets the reply, then end-of-stream
